@@ -26,7 +26,9 @@ def handler_script(route, method, wobj):
     def script(ex):
         from placement.handlers import allocation as alloc_handler
         reg = common.full_registry()
-        reg['watch'] = {id(alloc_handler.delete_consumers): 'delete_consumers'}
+        from placement.handlers import util as hutil_
+        reg['watch'] = {id(alloc_handler.delete_consumers): 'delete_consumers',
+                        id(hutil_.update_consumers): 'update_consumers'}
         I, ctx, ver, req = common.new_interp(ex, reg)
         db0 = I.db.snapshot()
         out = common.run(I, wobj, req)
@@ -39,6 +41,19 @@ def handler_script(route, method, wobj):
                 ex.oblige('C12.T.error_removes_created_consumer', same, 'T', dict(
                     info, signature=op + ' error leaves a created consumer'))
             return
+        # a request answered with success has handed its allocations to the
+        # write transaction, after bringing the consumers' attributes up to
+        # date
+        written = [x for x in I.events if x[0] == 'replace_all' or
+                   (x[0] == 'call' and x[1] in ('reshaper.reshape',
+                                                'alloc_obj.replace_all'))]
+        ex.oblige('C12.T.success_means_handed_to_the_writer', bool(written),
+                  'T', dict(info, signature=op + ' success without write'))
+        entered = [x for x in I.events if x[0] == 'enter' and
+                   x[1] == 'update_consumers']
+        ex.oblige('C12.T.success_updates_consumer_attributes', bool(entered),
+                  'T', dict(info, signature=op + ' success without '
+                            'attribute update'))
         if method == 'PUT':
             for e in created:
                 cobj = e[1]
@@ -54,6 +69,23 @@ def handler_script(route, method, wobj):
                 ex.oblige('C12.T.created_consumer_holds_allocations',
                           z3.Or(z3.BoolVal(was_deleted), nonempty), 'T', dict(
                               info, signature=op + ' success keeps an empty consumer'))
+            # ... and the handler's own clean-up removes a consumer on
+            # success only when nothing was written for it
+            if deleted:
+                writes = [x for x in I.events if x[0] == 'replace_all']
+                nonempty = z3.BoolVal(False)
+                for w in writes:
+                    al = w[1]
+                    if isinstance(al, SList):
+                        nonempty = z3.Or(nonempty, al.len > 0)
+                    elif isinstance(al, VList) and al.items:
+                        nonempty = z3.BoolVal(True)
+                    elif not isinstance(al, VList):
+                        nonempty = z3.BoolVal(True)     # unknown shape
+                ex.oblige('C12.T.consumer_with_allocations_not_deleted',
+                          z3.Not(nonempty), 'T', dict(
+                              info, signature=op + ' success deletes a '
+                              'consumer that holds allocations'))
         else:
             # multi-consumer requests: the clean-up of consumers without
             # allocations is reached on success
@@ -100,6 +132,66 @@ def attributes_script(ex):
               'T', {'signature': 'ensure_consumer consumer type'})
 
 
+def script_delete_all_cleanup(ex):
+    """alloc_obj.delete_all (DELETE /allocations/{consumer}): after the rows
+    are gone every consumer one of them belonged to is examined by
+    delete_consumers_if_no_allocations (whose SQL removes those without
+    allocations -- bounded stand-in), so no consumer outlives its last
+    allocation"""
+    from pyvc.interp import Interp
+    from pyvc.values import SSet
+    from contracts import lib
+    from placement.objects import allocation as alloc_obj
+    from placement.objects import consumer as consumer_obj
+    reg = lib.base_registry()
+    reg['fields'].update(classes.FIELDS)
+    reg['getattr'] = lib.context_getattr_hook
+    calls = []
+    reg['calls'][id(alloc_obj._delete_allocations_by_ids)] = \
+        lambda I, a, k: calls.append(('by_ids', a))
+    reg['calls'][id(consumer_obj.delete_consumers_if_no_allocations)] = \
+        lambda I, a, k: calls.append(('cleanup', a))
+    I = Interp(ex, reg)
+    ctx = I.ghost['ctx'] = lib.CtxStub()
+    allocs = I.fresh_list('alloc_list', ('obj', classes.ALLOC))
+    j = z3.Int('j!c12da')
+    a = z3.Select(allocs.arr, j)
+    cu = z3.Select(I.fld(classes.CONSUMER, 'uuid'),
+                   z3.Select(I.fld(classes.ALLOC, 'consumer'), a))
+    ex.hyp(ops.forall([j], z3.Implies(
+        z3.And(j >= 0, j < allocs.len),
+        z3.Not(z3.Select(I.fld_none(classes.CONSUMER, 'uuid'), z3.Select(
+            I.fld(classes.ALLOC, 'consumer'), a)))),
+        patterns=[z3.Select(allocs.arr, j)]))
+    I.call(alloc_obj.delete_all, [ctx, allocs], {})
+    kinds = [c[0] for c in calls]
+    ex.oblige('C12.T.delete_all.rows_then_consumer_cleanup',
+              kinds == ['by_ids', 'cleanup'], 'T', {'calls': kinds})
+    if kinds != ['by_ids', 'cleanup']:
+        return
+    uu = calls[1][1][1]
+    if not isinstance(uu, SSet):
+        ex.oblige('C12.T.delete_all.every_consumer_examined', False, 'T',
+                  {'arg': repr(uu)[:100]})
+        return
+    j0 = I.fresh('j0', 'int').t
+    ex.oblige('C12.T.delete_all.every_consumer_examined', z3.Implies(
+        z3.And(j0 >= 0, j0 < allocs.len),
+        z3.Select(uu.arr, z3.substitute(cu, (j, j0)))), 'T')
+    ids = calls[0][1][1]
+    ok = isinstance(ids, SList)
+    if ok:
+        ex.oblige('C12.T.delete_all.every_row_named', z3.And(
+            ids.len == allocs.len, z3.Implies(
+                z3.And(j0 >= 0, j0 < allocs.len),
+                z3.Select(ids.arr, j0) == z3.Select(
+                    I.fld(classes.ALLOC, 'id'),
+                    z3.Select(allocs.arr, j0)))), 'T')
+    else:
+        ex.oblige('C12.T.delete_all.every_row_named', False, 'T',
+                  {'arg': repr(ids)[:100]})
+
+
 def replay_c12(r):
     sys.path.insert(0, os.path.join(runner.VERIF, 'replay'))
     import c12
@@ -118,6 +210,8 @@ def build(tier, seed):
             chk.script('%s %s' % (method, route),
                        handler_script(route, method, wobj),
                        common.handler_names(wobj))
+    chk.script('delete_all cleanup', script_delete_all_cleanup,
+               ['placement/objects/allocation.py:delete_all'])
     leafs.add(chk, ['consumer.delete'])
     # an existing consumer named by a successful write takes the requested
     # project, user and consumer type (inductive proof of the real loop,
